@@ -46,6 +46,20 @@ def cases(tier, seed):
         add('a^(%s)' % ts, {'a': arr}, ('rand',))
         if i % 5 == 0:
             add('a^(%s).id' % ts, {'a': arr}, ('rand',))
+    # keys whose Go representation differs between items (a member is a float64, $count / $length / array positions are ints):
+    # numerically equal keys tie whatever their representation, and the next term decides
+    mixterms = ['$exists(n) ? n : $count(t)', '$count(t)', '$length(s)', '$exists(n) ? n : $length(s)', 'n ? n : $count(t) + 0', '$count(t) * 1.0', '$floor(n)', '$exists(n) ? $count(t) : 2']
+    for i in range(300 if tier == 'quick' else 15000):
+        m = rng.randint(2, 9)
+        arr = []
+        for j in range(m):
+            o = {'id': j, 't': [0] * rng.randint(0, 3), 's': 'x' * rng.randint(0, 3), 'r': rng.randint(0, 3)}
+            if rng.random() < 0.5: o['n'] = rng.choice([0, 1, 2, 3, 2.5])
+            arr.append(o)
+        t1 = rng.choice(dirs) + rng.choice(mixterms)
+        t2 = rng.choice(dirs) + rng.choice(['r', 'id', '$count(t)', 'n'])
+        add('a^(%s, %s).id' % (t1, t2), {'a': arr}, ('mixed-repr',))
+        add('a^(%s, %s, >id).id' % (t1, t2), {'a': arr}, ('mixed-repr',))
     # $sort default and with comparators
     for i in range(300 if tier == 'quick' else 15000):
         m = rng.randint(0, 8) if rng.random() < 0.6 else rng.randint(13, 120)
